@@ -103,16 +103,21 @@ MsgCaps(x) == GenMsg(0, 34, FLs[1], CRLF, Lines(x[1]), CRLF, BODY0, -1, 0, x[2])
 \* slice "bigclen": a numeric header whose value is out of range or over-long (Content-Length above 2^24 or longer
 \* than 9 characters, Expires / CSeq above 32 bits) between pool lines: the message must be REJECTED (C10); the wires
 \* feed the resumption explorations (a cut inside the number must not change the verdict)
-BigNums == <<V_big1, V_big2, V_big3, V_big4, V_big5>>
+BigNums == <<V_big1, V_big2, V_big3, V_big4, V_big5, V_big6>>
 BigLine(k, n) == CASE k = 1 -> GenHdrLine(N_CLen, WS0, WS1, BigNums[n], WS0, CRLF)
                    [] k = 2 -> GenHdrLine(N_l, WS0, WS0, BigNums[n], WS1, CRLF)
                    [] k = 3 -> GenHdrLine(N_Expires, WS0, WS1, BigNums[n], WS0, CRLF)
                    [] k = 4 -> GenHdrLine(N_CSeq, WS0, WS1, BigNums[n] \o <<SP, 65, 67, 75>>, WS0, CRLF)
 \* (Expires / CSeq are 32 bit: only V_big2 = 2^32 and V_big4 = 99999999999 are out of range for them)
-ChoicesBig == { x \in {1, 6} \X {1, 8, 14, 19, 33} \X (1..4) \X (1..Len(BigNums)) \X {0, 1} \X {0, 4} : x[3] <= 2 \/ x[4] \in {2, 4} }
+\* the other numbers (above 2^24 or longer than 9 characters, up to 2^32-1) are fine for Expires / CSeq: the message is
+\* ACCEPTED -- under every schedule as well (a resumed Expires header must not be held to the Content-Length limits)
+BigRejected(x) == x[3] <= 2 \/ x[4] \in {2, 4}
+ChoicesBig == {1, 6} \X {1, 8, 14, 19, 33} \X (1..4) \X (1..Len(BigNums)) \X {0, 1} \X {0, 4}
 MsgBig(x) == LET ls == IF x[5] = 0 THEN <<PoolLine(x[2]), BigLine(x[3], x[4])>> ELSE <<BigLine(x[3], x[4]), PoolLine(x[2])>>
                  m == GenMsg(0, 34, FLs[x[1]], CRLF, ls, CRLF, BODY3, -1, x[6], 64)
-             IN [m EXCEPT !.err = "ERR", !.offs = -1]
+                 v == DecValue(BigNums[x[4]], 2)
+             IN IF BigRejected(x) THEN [m EXCEPT !.err = "ERR", !.offs = -1]
+                ELSE [num |-> [PV |-> IF x[3] = 3 THEN [Expires |-> [UIVal |-> v]] ELSE [CSeq |-> [CSeqNo |-> v]]]] @@ m
 
 \* slice "cexp" (C09): several Contact headers whose values all carry an explicit expires, fillers and an Expires
 \* header in between: value count, header count and the min / max expires summarise ALL values of ALL headers
@@ -153,7 +158,7 @@ Spec == Init /\ [][Next]_c
 ObsFor(m) == CASE Prop = "C07" -> [HL |-> m.obs.HL]
                [] Prop = "C06" -> [Body |-> m.obs.Body, RawMsg |-> m.obs.RawMsg, Parsed |-> m.obs.Parsed]
                [] Prop = "corpus" -> [n |-> m.nhdr]
-               [] Prop = "C10" -> [n |-> m.nhdr]
+               [] Prop = "C10" -> IF "num" \in DOMAIN m THEN m.num ELSE [n |-> m.nhdr]
                [] Prop = "C09" -> m.obs
                [] OTHER -> m.obs
 Cfg(m) == [kind |-> "msg", start |-> 0, flags |-> m.flags, hcap |-> m.hcap, ccap |-> (IF "ccap" \in DOMAIN m THEN m.ccap ELSE -1), pcap |-> -1]
